@@ -52,7 +52,7 @@ All == Core \cup Frag \cup
         "decor", "border-image", "line-clamp", "object-fit", "unknown-elem", "details", "sticky", "big-font", "zero-font", "lh-huge", "min-content",
         "fit-content", "clear", "fontface", "counter-style", "svg-img-ref", "media", "nested-rule", "attr-hints", "font-hints", "center", "base",
         "meta-link", "style-attr", "osc-pages", "pages-text", "full-table-coll", "full-table-sep", "full-list", "full-flex", "full-grid",
-        "full-columns", "long-text", "footnotes-many", "var-lasso", "floats-many", "abs-in-rel"}
+        "full-columns", "long-text", "footnotes-many", "var-lasso", "floats-many", "abs-in-rel", "calc-nested", "attr-typed"}
 Bundles == CASE Set = "core" -> Core [] Set = "frag" -> Frag [] OTHER -> All
 
 Invalid == {"unknown-prop", "bad-value", "bad-at-rule", "bad-selector", "bad-important"}
